@@ -98,6 +98,15 @@ impl Sim {
         }
     }
 
+    /// The decisions made so far (for an emergency replay file written while the run is still going).
+    /// Must not be called while the simulator's own lock is held by the calling thread.
+    pub fn tape_so_far(&self) -> Option<Vec<u64>> {
+        match self.0.try_lock() {
+            Ok(g) => Some(g.tape.clone()),
+            Err(_) => None,
+        }
+    }
+
     pub fn set_step_budget(&self, n: u64) {
         self.lock().step_budget = n;
     }
